@@ -1,5 +1,6 @@
 import SkyllhModel.Proto
 import SkyllhModel.Model.Minimizer
+import SkyllhModel.Model.MinimizerR7
 open Proto Minimizer
 
 /-  requests (floats as IEEE bit patterns; records `a:b:c` separated by `;`, `-` = no record):
@@ -190,6 +191,39 @@ def answer (line : String) : String :=
       | .native => "native"
       | .constraints => "constraints"
       | .dropped => "dropped"
+  | ["reeval", mr, bs, as, tab] =>
+      -- round 7: objective of any return shape; table shape:n:f:x1,x2;…  (shape S scalar | T tuple | L list, n elements)
+      let t : List (List Float × ObjRet Float) := (records tab).filterMap fun r => match r with
+        | [sh, n, f, xs] =>
+            let vs : List Float := if pN n == 0 then [] else pF f :: List.replicate (pN n - 1) 0.0
+            some (pList pF xs, if sh == "T" then ObjRet.tuple vs else if sh == "L" then ObjRet.list vs else ObjRet.scalar (pF f))
+        | _ => none
+      let obj := fun (x : List Float) => match t.find? (fun e => sameList e.1 x) with
+        | some e => e.2
+        | none => ObjRet.scalar nanF
+      match wrapperRet (attemptOf (parseAttempts as)) (pN mr) (parseBounds bs) obj with
+      | .error e => s!"err {e}"
+      | .ok o => s!"ok {o.reps} {fB o.reevaluated} {fF o.f} {fListD fF o.x}"
+  | ["crsg", lo, hi, code] => fB (crsSuccessG (pI lo) (pI hi) (pI code))
+  | ["bmodeg", nat, con, m] =>
+      let names := fun (s : String) => if s == "-" then [] else (s.splitOn ",").map unhex
+      match scipyBoundsModeG (names nat) (names con) (unhex m) with
+      | .native => "native"
+      | .constraints => "constraints"
+      | .dropped => "dropped"
+  | ["lbfgsg", conv, rep, needles, wf, task] =>
+      let ns := if needles == "-" then [] else (needles.splitOn ",").map unhex
+      s!"{fB (lbfgsConvergedG (pI conv) (pI wf))} {fB (lbfgsRepeatableG (pI rep) ns (pI wf) (unhex task))}"
+  | ["dispatch", kind] =>
+      let k : ImplKind := match kind with
+        | "nr1d" => .nr1d | "nrScan" => .nrScan | "lbfgs" => .lbfgs | "scipy" => .scipy
+        | "iminuit" => .iminuit | "crs" => .crs | _ => .other
+      let p := maximizePath k
+      s!"{if p == .newton then "newton" else "generic"} {objectiveArity p}"
+  | ["nrconvg", thr, flag] => fB (nrConvergedG (pI thr) (pI flag))
+  | ["layout", xs, idx, ns] => match nrLayout (pList pF xs) (pN idx) (pF ns) with
+      | some x => fListD fF x
+      | none => "ERR"
   | _ => "bad-op"
 
 def main : IO Unit := do loop (← IO.getStdin) answer
